@@ -88,6 +88,28 @@ def run(rep, tier, seed, replay):
     # validation of the regex assumption: matchB on the emitted text vs the regex crate
     rx = [(k, w) for k, w, _ in diffs[:200]]
     # listed witnesses, replayed on the real code
+    # ---- the candidate path however it is given: &str, &Path, &OsStr, owned; bytes that are not UTF-8 are read
+    # lossily (documented on CandidatePath). Paths: words of the pattern's own language and near misses.
+    if replay is None:
+        import random as _r
+        rng = _r.Random(seed + 101)
+        builtk = [k for k in range(len(exprs)) if P.impl[k]["ok"]]
+        sample = rng.sample(builtk, min(len(builtk), 250 if tier == "quick" else 3000))
+        wd = h.ask(["WD %s 4" % hexs(P.impl[k]["pattern"]) for k in sample])
+        reqs, owner = [], []
+        for k, line in zip(sample, wd):
+            words = [unhex(w) for w in line.split()[1:]] if line.startswith("words") else []
+            for w in words[:3] + [w + "x" for w in words[:1]] + ["", "/", "a/b"]:
+                reqs.append("CP %s %s" % (hexs(exprs[k]), hexs(w)))
+                owner.append((k, w))
+        for (k, w), line in zip(owner, h.ask(reqs)):
+            if line == "routes=same raw=same":
+                rep.stats["candidate path: str = Path = OsStr = owned; non-UTF-8 read lossily"] += 1
+            elif line.startswith("routes="):
+                rep.violation("oracle", "the same candidate path given as &str, &Path, &OsStr or owned (or raw bytes vs. their lossy text) is matched differently",
+                              {"expr": exprs[k], "path": w, "what": "candidate-routes"}, impl=line[:300])
+        rep.evaluations += len(reqs)
+
     def ask(wit):
         got = h.ask(["M %s %s" % (hexs(wit["expr"]), hexs(wit["path"]))])[0].startswith("match")
         return got == wit["impl"], "%r %s %r" % (wit["expr"], "matches" if got else "does not match", wit["path"])
